@@ -487,6 +487,7 @@ func c10ClientClass(err error) string {
 }
 
 var c10ErrSector = errors.New("backend: unreadable sector")
+var c10ErrBrokeOff = fmt.Errorf("object store: %w", io.ErrUnexpectedEOF)
 
 // shapes for data / attributes / strings returned by handlers
 var c10InfoShapes = []c10Info{
@@ -881,7 +882,9 @@ func init() {
 					err error
 				}{{8, nil}, {8, io.EOF}, {3, io.EOF}, {3, nil}, {1, io.EOF}, {1, nil},
 					// a store that fails part-way: the error must reach the client, not a short read that looks like the end of the file
-					{3, c10ErrSector}, {7, c10ErrSector}, {0, c10ErrSector}, {0, io.EOF}, {5, os.ErrPermission}} {
+					{3, c10ErrSector}, {7, c10ErrSector}, {0, c10ErrSector}, {0, io.EOF}, {5, os.ErrPermission},
+					// a back end that broke off in the middle of an object (io.ReadFull): a failure, not the end of the file
+					{0, io.ErrUnexpectedEOF}, {3, io.ErrUnexpectedEOF}, {0, c10ErrBrokeOff}} {
 					rec.mu.Lock()
 					rec.data, rec.readSet, rec.readN, rec.readErr = content, true, sh.n, sh.err
 					rec.mu.Unlock()
